@@ -33,6 +33,16 @@ fn main() {
     eprintln!("usage: vcheck <ID> [--tier quick|thorough] [--replay path]");
     std::process::exit(2);
   }
+  if args[1] == "--ord-cli" {
+    std::process::exit(ord::verif::run_cli(args[2..].to_vec()));
+  }
+  if args[1] == "--worker" {
+    util::quiet_panics();
+    if std::env::var_os("TOKIO_WORKER_THREADS").is_none() {
+      unsafe { std::env::set_var("TOKIO_WORKER_THREADS", "1") };
+    }
+    std::process::exit(wallet::worker(&args[2..]));
+  }
   let id = args[1].clone();
   let mut tier = std::env::var("VERIF_TIER").unwrap_or_else(|_| "quick".into());
   let mut replay = None;
@@ -88,6 +98,8 @@ fn main() {
       "C11" => Some(chain::runes::run(&ctx, "C11")),
       "C18" => Some(server::json::run(&ctx)),
       "C19" => Some(server::content::run(&ctx)),
+      "C22" => Some(wallet::run_c22(&ctx)),
+      "C23" => Some(wallet::run_c23(&ctx)),
       "C20" => Some(wallet::builder::run(&ctx)),
       "C16" => Some(chain::nofail::run(&ctx)),
       "C15" => Some(chain::configs::run(&ctx)),
